@@ -81,6 +81,57 @@ theorem qMat_reversible (m : ℕ) (P : ℕ → ℕ → α) (hP : ∀ i < m, ∀ 
       · simp only [hc, hri, hrj, or_self, if_false]
         field_simp
 
+/-- `p_x(i) Q(i,j) = Σ_k p(i,k) p(j,k) / p_y(k)` (terms of empty columns dropped) -/
+theorem qMat_weighted (m : ℕ) (P : ℕ → ℕ → α) (hP : ∀ i < m, ∀ j < m, 0 ≤ P i j) (i j : ℕ) (hi : i < m) :
+    (∑ l ∈ range m, P i l) * qMatG (0 : α) m P i j
+      = ∑ k ∈ range m, (if (∑ l ∈ range m, P l k) = 0 then 0 else P i k * P j k / (∑ l ∈ range m, P l k)) := by
+  rw [qMat_eq m P i j hi, Finset.mul_sum]
+  refine Finset.sum_congr rfl fun k hk => ?_
+  have hk' := Finset.mem_range.1 hk
+  by_cases hc : (∑ l ∈ range m, P l k) = 0
+  · simp [hc]
+  · by_cases hri : (∑ l ∈ range m, P i l) = 0
+    · have : P i k = 0 := entry_zero_of_sum_zero m (fun l => P i l) (fun l hl => hP i hi l hl) hri k hk'
+      simp [hri, this]
+    · simp only [hc, hri, or_self, if_false]
+      field_simp
+
+/-- the quadratic form of `Q` weighted by the row marginal is a sum of squares: `Q` has no negative eigenvalue -/
+theorem qMat_psd (m : ℕ) (P : ℕ → ℕ → α) (hP : ∀ i < m, ∀ j < m, 0 ≤ P i j) (x : ℕ → α) :
+    ∑ i ∈ range m, ∑ j ∈ range m, (∑ l ∈ range m, P i l) * qMatG (0 : α) m P i j * (x i * x j)
+      = ∑ k ∈ range m, (if (∑ l ∈ range m, P l k) = 0 then 0
+          else (∑ i ∈ range m, P i k * x i) ^ 2 / (∑ l ∈ range m, P l k)) ∧
+    0 ≤ ∑ i ∈ range m, ∑ j ∈ range m, (∑ l ∈ range m, P i l) * qMatG (0 : α) m P i j * (x i * x j) := by
+  have key : ∑ i ∈ range m, ∑ j ∈ range m, (∑ l ∈ range m, P i l) * qMatG (0 : α) m P i j * (x i * x j)
+      = ∑ k ∈ range m, (if (∑ l ∈ range m, P l k) = 0 then 0
+          else (∑ i ∈ range m, P i k * x i) ^ 2 / (∑ l ∈ range m, P l k)) := by
+    have h1 : ∀ i ∈ range m, ∀ j ∈ range m,
+        (∑ l ∈ range m, P i l) * qMatG (0 : α) m P i j * (x i * x j)
+          = ∑ k ∈ range m, (if (∑ l ∈ range m, P l k) = 0 then 0
+              else (P i k * x i) * (P j k * x j) / (∑ l ∈ range m, P l k)) := by
+      intro i hi j _
+      rw [qMat_weighted m P hP i j (Finset.mem_range.1 hi), Finset.sum_mul]
+      refine Finset.sum_congr rfl fun k _ => ?_
+      split
+      · simp
+      · ring
+    rw [Finset.sum_congr rfl fun i hi => Finset.sum_congr rfl fun j hj => h1 i hi j hj]
+    rw [Finset.sum_congr rfl fun i _ => Finset.sum_comm]
+    rw [Finset.sum_comm]
+    refine Finset.sum_congr rfl fun k _ => ?_
+    by_cases hc : (∑ l ∈ range m, P l k) = 0
+    · simp [hc]
+    · simp only [hc, if_false]
+      rw [pow_two, Finset.sum_mul_sum, Finset.sum_div]
+      refine Finset.sum_congr rfl fun i _ => ?_
+      rw [Finset.sum_div]
+  refine ⟨key, ?_⟩
+  rw [key]
+  refine Finset.sum_nonneg fun k hk => ?_
+  split
+  · exact le_rfl
+  · exact div_nonneg (sq_nonneg _) (Finset.sum_nonneg fun l hl => hP l (Finset.mem_range.1 hl) k (Finset.mem_range.1 hk))
+
 end field
 
 /-! ## `ignore_zeros`: row and column 0 of the count matrix cleared -/
